@@ -446,5 +446,13 @@ func genScript(r *hx.Rand, u *rt.Universe, n int) []rt.Def {
 			ds = append(ds, u.GenDef(r, ds))
 		}
 	}
+	// a source may name a host without any path ("foo.com" means "foo.com/"): rt's universe always appends a
+	// path, so drop the bare "/" now and then (all commands, any letter case)
+	for i := range ds {
+		s := ds[i].Src
+		if len(s) > 1 && strings.HasSuffix(s, "/") && !strings.Contains(s[:len(s)-1], "/") && !strings.HasPrefix(s, ":") && r.Chance(2, 5) {
+			ds[i].Src = s[:len(s)-1]
+		}
+	}
 	return ds
 }
